@@ -252,7 +252,7 @@ fn end_harness(version: u16, min_len: u8, max_ops: u8, addr_bits: u32) {
     assert!(hk::instruction(&p, n - 1) == VI::EndSequence);
     assert!(m.step(&h, MIns::EndSequence) == MOut::Ok(true));
     assert!(m.address == end && m.end_sequence, "end of sequence address");
-    kani::cover!(end == prev.address_offset && oi as u64 > prev.op_index);
+    kani::cover!(max_ops == 1 || (end == prev.address_offset && oi as u64 > prev.op_index));
     // only the address is specified for the end-of-sequence row; other registers keep the last row's values
     let mut want = mrow(&prev, version);
     want.address = end;
